@@ -697,7 +697,12 @@ macro_rules! with_array {
 }
 
 fn elems(vals: &[u64]) -> Vec<Elem> {
-    let mut v = Vec::with_capacity(vals.len());
+    elems_spare(vals, 0)
+}
+
+/// the elements in a vector with `spare` elements of unused capacity
+fn elems_spare(vals: &[u64], spare: usize) -> Vec<Elem> {
+    let mut v = Vec::with_capacity(vals.len() + spare);
     for x in vals {
         v.push(Elem::new(*x));
     }
@@ -728,6 +733,33 @@ fn script_vals(script: &[crate::case::Entry]) -> Vec<u64> {
 
 /// Runs one case; the trace block (without the `case` line) is written to the out file.
 pub fn run_case(case: &Case) {
+    if case.pod {
+        // `Copy` elements without drop glue, consumed (`needs_drop::<T>() == false`)
+        match &case.src {
+            Src::Vec(vals) => {
+                let mut once = Some(vals);
+                let spare = case.spare;
+                run_generic(case, false, &mut || {
+                    let vals = once.take().expect("vec kinds have one slot");
+                    let mut v = Vec::with_capacity(vals.len() + spare);
+                    v.extend(vals.iter().map(|x| CElem(*x)));
+                    IntoConcurrentIter::into_con_iter(v)
+                });
+            }
+            Src::Array(vals) => with_array!(celems(vals), arr, {
+                let mut once = Some(arr);
+                run_generic(case, false, &mut || {
+                    let arr = once.take().expect("array kinds have one slot");
+                    IntoConcurrentIter::into_con_iter(arr)
+                });
+            }),
+            _ => {
+                eprintln!("orx-harness: case {}: pod applies to vec, array only", case.id);
+                std::process::exit(2);
+            }
+        }
+        return;
+    }
     if case.zst {
         // zero-sized elements: pointer arithmetic on them never moves (`ptr.add(i) == ptr`)
         match &case.src {
@@ -804,9 +836,10 @@ pub fn run_case(case: &Case) {
         // ---- consuming kinds
         (Src::Vec(vals), _) => {
             let mut once = Some(vals);
+            let spare = case.spare;
             run_generic(case, false, &mut || {
                 let vals = once.take().expect("vec kinds have one slot");
-                IntoConcurrentIter::into_con_iter(elems(vals))
+                IntoConcurrentIter::into_con_iter(elems_spare(vals, spare))
             });
         }
         (Src::Array(vals), _) => with_array!(elems(vals), arr, {
